@@ -7,9 +7,9 @@ Property theorems over the outstation session model for ALL states / requests / 
 Definitions used in the statements (`Inv`, `DbContract`, `TxShape`, `SolResp`, `UnsolResp`,
 `SentOne`, `HasBits`, `Correlated`, `CbOnly`, `Good`) are in `Dnp3.Proofs.OutstationC12`; the
 statements are restated here verbatim and proved by the theorems of that file.
-Known defects (kept as exact characterisations + counterexamples): D7 (WRITE reports only the
-last header's result), D1 (OPERATE echo overflow panics), D13 (SELECT / DIRECT_OPERATE echo
-silently truncated).
+Known defects (kept as exact characterisations + counterexamples): D1 (OPERATE echo overflow
+panics), D13 (SELECT / DIRECT_OPERATE echo silently truncated).  D7 (WRITE reported only the last
+header's result) is repaired: `write_rejection_flagged` is the full statement.
 -/
 namespace Dnp3.Props.C12
 open Dnp3 Dnp3.Proofs.C12
@@ -175,19 +175,36 @@ theorem rejection_flagged_controls (a : Acc) (func seq frameId : Nat) (hs : List
       HasBits r.iin2 iin2ParamError :=
   @Dnp3.Proofs.C12.rejection_flagged_controls a func seq frameId hs raw hf hbad
 
-/-- exact characterisation: the response IIN2 of a WRITE is the result of its last header, whatever
-    the earlier headers returned -/
-theorem write_last_header_wins (a : Acc) (seq : Nat) (pre : List ObjHdr) (h : ObjHdr) :
-    (handleWrite a seq (pre ++ [h])).2.iin2 = (handleWriteHeader (handleWrite a seq pre).1 h).2 :=
-  @Dnp3.Proofs.C12.write_last_header_wins a seq pre h
+/-- exact characterisation of `handle_write` (D7 repaired, `iin2 |= …`): every further header ORs its
+    result into the response IIN2 -/
+theorem write_accumulates (a : Acc) (seq : Nat) (pre : List ObjHdr) (h : ObjHdr) :
+    (handleWrite a seq (pre ++ [h])).2.iin2 =
+      (handleWrite a seq pre).2.iin2 ||| (handleWriteHeader (handleWrite a seq pre).1 h).2 :=
+  @Dnp3.Proofs.C12.write_accumulates a seq pre h
 
-/-- **D7**: the first header (write IIN1.4) is rejected with PARAMETER_ERROR, the second (clear
-    RESTART) succeeds, and the response record has IIN2 = 0 — in ANY state -/
-theorem write_rejection_lost_counterexample (a : Acc) :
-    (handleWriteHeader a d7Hdr1).2 = iin2ParamError ∧
-    (handleWrite a 1 [d7Hdr1, d7Hdr2]).2.iin2 = 0 ∧
-    ∃ a', handleNonRead a 2 1 0 [d7Hdr1, d7Hdr2] (d7Fragment.drop 2) = some (a', some (emptySolicited 1 0)) :=
-  @Dnp3.Proofs.C12.write_rejection_lost_counterexample a
+/-- (f) **write_rejection_flagged** (full statement; was `_partial` + counterexample while D7 stood):
+    for ANY header `h` of a WRITE — at any position, whatever precedes and follows it — every IIN2
+    bit that handling `h` returns (PARAMETER_ERROR, NO_FUNC_CODE_SUPPORT; in the state the preceding
+    headers left) is set in the IIN2 of the response record -/
+theorem write_rejection_flagged (a : Acc) (seq : Nat) (pre : List ObjHdr) (h : ObjHdr) (post : List ObjHdr)
+    (m : Nat) (hrej : HasBits (handleWriteHeader (handleWrite a seq pre).1 h).2 m) :
+    HasBits (handleWrite a seq (pre ++ h :: post)).2.iin2 m :=
+  @Dnp3.Proofs.C12.write_rejection_flagged a seq pre h post m hrej
+
+/-- (f) at the level of `handle_non_read`: the response record of a WRITE request carries the
+    request's sequence number and every IIN2 bit any of its headers returned -/
+theorem rejection_flagged_write (a : Acc) (seq frameId : Nat) (pre : List ObjHdr) (h : ObjHdr) (post : List ObjHdr)
+    (raw : List Nat) (m : Nat) (hrej : HasBits (handleWriteHeader (handleWrite a seq pre).1 h).2 m) :
+    ∃ a' r, handleNonRead a 2 seq frameId (pre ++ h :: post) raw = some (a', some r) ∧ r.ctrl.seq = seq ∧
+      HasBits r.iin2 m :=
+  @Dnp3.Proofs.C12.rejection_flagged_write a seq frameId pre h post raw m hrej
+
+/-- regression instance (the former D7 counterexample `c1 02 | 50 01 00 04 04 00 | 50 01 00 07 07 00`):
+    the first header (write IIN1.4) is rejected with PARAMETER_ERROR, the second (clear RESTART)
+    succeeds, and the response record has PARAMETER_ERROR set — in ANY state -/
+theorem write_rejection_flagged_d7 (a : Acc) :
+    HasBits (handleWrite a 1 [d7Hdr1, d7Hdr2]).2.iin2 iin2ParamError :=
+  @Dnp3.Proofs.C12.write_rejection_flagged_d7 a
 
 /-- **D1** (characterisation): an OPERATE whose headers are all control headers panics — the
     `unwrap` on the cursor's `WriteError` — exactly when its echo does not fit the solicited
